@@ -73,7 +73,7 @@ pub fn cases(thorough: bool) -> Vec<(&'static str, Vec<Outcome>)> {
     let mut res = Vec::new();
     for cmd in COMMANDS {
         let max = match (*cmd, thorough) {
-            ("server", false) => 3,
+            ("server", true) => 5,
             _ => 4,
         };
         for seq in sequences(max) {
